@@ -200,8 +200,14 @@ func buildMenu(thorough bool) {
 	// a genuine obfs4 flight of the maximum handshake length (the client picked the maximum padding: once in about
 	// 8000 handshakes); recognition must not depend on the padding the client happened to draw
 	t0 := time.Now()
-	if d := vfix.Obfs4FlightOfLen(vfix.Secret(1), 8192, 120000); d != nil {
+	sized := vfix.Obfs4FlightsOfLens(vfix.Secret(1), []int{141, 8192}, 200000)
+	if d := sized[8192]; d != nil {
 		menu = append(menu, probe{"s1/Obfs4/pfx0:genuine-maxlen", d, 1, pb.TransportType_Obfs4, 0, ""})
+	} else {
+		maxlenMissing = true
+	}
+	if d := sized[141]; d != nil {
+		menu = append(menu, probe{"s1/Obfs4/pfx0:genuine-minlen", d, 1, pb.TransportType_Obfs4, 0, ""})
 	} else {
 		maxlenMissing = true
 	}
